@@ -378,11 +378,33 @@ class Eval:
         if len(n["arms"]) != 2 or some is None or none is None:
             raise ValueError("E2 cannot evaluate this match: " + short(pretty(n), 60))
         src = pretty(strip(n["scrut"]))
+        sc0 = strip(n["scrut"])
+        payload = None
+        if sc0 is not None and sc0.get("k") == "mcall" and sc0.get("name") == "checked_sub" and len(sc0.get("args") or []) == 1:
+            # Some(l - r) exactly when l >= r: the payload is the difference, which is then known not to be negative
+            l_, r_ = self.eval(sc0["recv"]), self.eval(sc0["args"][0])
+            if l_.is_int and r_.is_int:
+                lo_, hi_ = max(l_.lo - r_.hi, Fr(0)), l_.hi - r_.lo
+                lbs_ = {(s_, o - int(r_.hi)) for (s_, o) in l_.lbs} if r_.lo == r_.hi else set()
+                ubs_ = {(s_, o - int(r_.lo)) for (s_, o) in l_.ubs} if r_.lo == r_.hi else set()
+                payload = AV(lo_, max(hi_, lo_), False, lbs_, ubs_, l_.ty)
+
+        def diverges(e):
+            e = strip(e)
+            while e is not None and e.get("k") in ("blk", "block"):
+                b_ = e["b"] if e.get("k") == "blk" else e
+                items_ = list(b_["stmts"]) + ([b_["tail"]] if b_.get("tail") is not None else [])
+                if len(items_) != 1:
+                    return False
+                e = strip(items_[0])
+            return e is not None and e.get("k") in ("ret", "continue", "break")
         st0 = (dict(self.env), dict(self.fields), dict(self.cells))
         for nm, hid in pat_binds(some[1]):
             b = _find_bind(some[1], hid)
-            self.env[hid] = self.some.get(src, top(self.c.types[b["t"]].lstrip("&")))
+            self.env[hid] = payload if payload is not None else self.some.get(src, top(self.c.types[b["t"]].lstrip("&")))
         a = self.eval(some[0]["body"])
+        if diverges(none["body"]):
+            return a          # the other arm leaves: what follows is only reached through this one
         st1 = (self.env, self.fields, self.cells)
         self.env, self.fields, self.cells = (dict(st0[0]), dict(st0[1]), dict(st0[2]))
         b = self.eval(none["body"])
